@@ -23,6 +23,9 @@ from typing import Callable
 from .common import NCPU, VERIF, WORK, REPO_SRC, HarnessError
 
 
+WORKER_AS_GB = 4  # address-space cap per CrossHair worker: a lying length field must fail fast, not thrash
+
+
 @dataclass
 class Obligation:
     name: str
@@ -49,7 +52,7 @@ def _run_one(ob: Obligation, workdir: str) -> Obligation:
     env["PYTHONPATH"] = f"{VERIF}:{REPO_SRC}"
     env["PYTHONDONTWRITEBYTECODE"] = "1"
     env["PYTHONHASHSEED"] = "0"
-    cmd = [sys.executable, "-m", "vlib.chx_worker", path, ob.fn, str(ob.timeout), str(ob.path_timeout)]
+    cmd = ["prlimit", f"--as={WORKER_AS_GB << 30}", sys.executable, "-m", "vlib.chx_worker", path, ob.fn, str(ob.timeout), str(ob.path_timeout)]
     t0 = time.time()
     try:
         cp = subprocess.run(cmd, env=env, capture_output=True, text=True, timeout=ob.timeout * 2 + 60, cwd=workdir)
